@@ -1,6 +1,7 @@
 SPECIFICATION Spec
 CONSTANTS
   MaxDepth = 2
+  Mode = "syntax"
   Contexts = {"field", "into_target", "variant_field", "tuple_field"}
-INVARIANTS TypeOK
+INVARIANTS TypeOK TypedSane
 CHECK_DEADLOCK FALSE
